@@ -263,3 +263,16 @@ Definition re_split (p : pattern) (s : str) : option (list (option str)) :=
                 Some (fst gm) :: map (fun i => group (snd gm) i) (seq_from 1 (p_ngroups p - 1))) l)
             ++ [Some tl])
   end.
+
+(* ---- total variants.  Running out of fuel is impossible (Proofs/RegexFacts.v:
+   finditer_never_out_of_fuel etc.), so the default value is never produced. ---- *)
+Definition finditer_t (p : pattern) (s : str) : list (str * mmatch) * str :=
+  match finditer p s with Some x => x | None => ([], s) end.
+Definition re_search_t (p : pattern) (s : str) : option mmatch :=
+  match re_search p s with Some x => x | None => None end.
+Definition re_match_t (p : pattern) (s : str) : option mmatch :=
+  match re_match p s with Some x => x | None => None end.
+Definition re_split_t (p : pattern) (s : str) : list (option str) :=
+  match re_split p s with Some x => x | None => [Some s] end.
+Definition re_sub_t (p : pattern) (f : mmatch -> str) (s : str) : str :=
+  match re_sub p f s with Some x => x | None => s end.
